@@ -150,7 +150,7 @@ def replay(prop, path):
     rec = json.load(open(path))
     mod = importlib.import_module(f"props.{rec['property']}")
     fn = getattr(mod, rec["fn"])
-    B, err = run_float(fn, rec.get("params", {}), rec["cfg"], rec.get("seed", 0))
+    B, err = run_float(fn, rec.get("params", {}), rec["cfg"], rec.get("seed", 0), override=rec.get("override"))
     bad = [o for o in B.obligations if o.status in ("violated", "failed-concrete")]
     print(f"replay of {path}: config {rec['cfg']}, inputs from seed {rec.get('seed', 0)}")
     if err:
@@ -219,7 +219,7 @@ def main(argv=None):
                 continue
             n_viol += 1
             c = cfg_by_key[r["cfg"]]
-            rec = {"property": prop, "cfg": r["cfg"], "fn": c["fn"], "params": c.get("params", {}), "seed": v.get("seed", c.get("seed", 0)), "obligation": v["obligation"], "detail": v.get("detail"), "float_detail": v.get("float_detail"), "path": v.get("path"), "inputs": r.get("inputs")}
+            rec = {"property": prop, "cfg": r["cfg"], "fn": c["fn"], "params": c.get("params", {}), "seed": v.get("seed", c.get("seed", 0)), "obligation": v["obligation"], "detail": v.get("detail"), "float_detail": v.get("float_detail"), "path": v.get("path"), "inputs": r.get("inputs"), "override": v.get("override")}
             dig = hashlib.sha1(json.dumps([rec["cfg"], rec["obligation"]], sort_keys=True).encode()).hexdigest()[:10]
             path = os.path.join(ROOT, "replays", f"{prop}-{dig}.json")
             with open(path, "w") as fh:
